@@ -89,6 +89,22 @@ func (a *Application) isProviderSupported(provider string) bool {
 	return staticProviders[normalised]
 }
 
+// requestedProviderPrefix returns the "/olla/<provider>" part of a request path exactly as
+// the client spelt it, or "" when the path is not under the proxy prefix
+func requestedProviderPrefix(path string) string {
+	if !strings.HasPrefix(path, constants.DefaultOllaProxyPathPrefix) {
+		return ""
+	}
+	segment := strings.TrimPrefix(path, constants.DefaultOllaProxyPathPrefix)
+	if slashIdx := strings.Index(segment, constants.DefaultPathPrefix); slashIdx != -1 {
+		segment = segment[:slashIdx]
+	}
+	if segment == "" {
+		return ""
+	}
+	return constants.DefaultOllaProxyPathPrefix + segment
+}
+
 // getProviderPrefix returns the URL prefix for a provider
 func getProviderPrefix(provider string) string {
 	// use the original provider name in the URL to maintain compatibility
